@@ -28,6 +28,8 @@ func C11(c *core.Ctx) {
 	c11Files(c)
 	c11Patterns(c)
 	c11NullFree(c)
+	c11Enums(c)
+	c11RegistryEnums(c)
 }
 
 func c11Files(c *core.Ctx) {
@@ -171,7 +173,7 @@ func c11Patterns(c *core.Ctx) {
 	p := c.P
 	n := 0
 	for _, fd := range p.AllFuncs() {
-		if fd.Obj.Name() != "JSONSchema" || core.RecvNamed(fd.Obj) == nil {
+		if (fd.Obj.Name() != "JSONSchema" && fd.Obj.Name() != "JSONSchemaExtend") || core.RecvNamed(fd.Obj) == nil {
 			continue
 		}
 		rel := core.RelPkg(fd.Obj.Pkg().Path())
@@ -180,10 +182,24 @@ func c11Patterns(c *core.Ctx) {
 		}
 		info := fd.Pkg.TypesInfo
 		named := core.RecvNamed(fd.Obj)
+		var sigParam *types.Var
+		if sg := fd.Obj.Type().(*types.Signature); sg.Params().Len() == 1 {
+			sigParam = sg.Params().At(0)
+		}
 		ast.Inspect(fd.Decl.Body, func(m ast.Node) bool {
-			kv, ok := m.(*ast.KeyValueExpr)
-			if !ok {
-				return true
+			var kv *ast.KeyValueExpr
+			if as, isAs := m.(*ast.AssignStmt); isAs && len(as.Lhs) == 1 && len(as.Rhs) == 1 {
+				// s.Pattern = X on the schema of the type itself (the method's parameter)
+				if se, isSel := ast.Unparen(as.Lhs[0]).(*ast.SelectorExpr); isSel && se.Sel.Name == "Pattern" && sigParam != nil && core.VarOf(info, se.X) == sigParam {
+					kv = &ast.KeyValueExpr{Key: se.Sel, Colon: as.TokPos, Value: as.Rhs[0]}
+				}
+			}
+			if kv == nil {
+				k2, ok := m.(*ast.KeyValueExpr)
+				if !ok {
+					return true
+				}
+				kv = k2
 			}
 			id, ok := kv.Key.(*ast.Ident)
 			if !ok || id.Name != "Pattern" {
